@@ -18,11 +18,11 @@ git apply $out/patch.diff || { echo "patch does not apply in worktree"; exit 2; 
 echo "== demo with change (must fail)"
 (cd $wt/$pkg && go test -vet=off -count=1 -timeout 5m -run TestSeededDemo . 2>&1 | tail -5) | tee $out/demo_with.txt
 echo "== build + package tests with change (must pass)"
-(cd $wt && go build ./... && cd $wt/$pkg && go test -vet=off -count=1 -timeout 10m -skip TestSeededDemo . 2>&1 | tail -2) | tee $out/tests_with.txt
+(cd $wt && go build ./... && cd $wt/$pkg && go test -vet=off -count=1 -timeout 10m -skip TestSeededDemo . 2>&1 | grep -a '^--- FAIL\|^FAIL\|^ok\|^panic' | tail -8) | tee $out/tests_with.txt
 echo "== check on /repo with the patch"
 cd /repo && git apply $out/patch.diff || { echo "patch does not apply to /repo"; exit 2; }
 cp /verif/evidence/$prop.json /tmp/evidence-$prop.bak 2>/dev/null
 (cd /verif && ./check $prop quick > $out/check_output.txt 2>&1; echo "exit=$?" >> $out/check_output.txt)
 cp /tmp/evidence-$prop.bak /verif/evidence/$prop.json 2>/dev/null; rm -f /tmp/evidence-$prop.bak
-git -C /repo checkout -- .
+git -C /repo apply -R $out/patch.diff || echo 'WARNING: could not revert the patch in /repo'
 grep -c VIOLATION $out/check_output.txt; grep "VIOLATION\|exit=\|govc:" $out/check_output.txt | cut -c1-230 | head -6
